@@ -136,6 +136,13 @@ def check_rebuilds(ctx):
                                 continue        # a dagger flag computed from the data follows the new data
                             if (a in x.attrs or a in y.attrs) and not same_value(sim, x.attrs.get(a), y.attrs.get(a)):
                                 bad.setdefault("keeps:" + a, (label, oracle, "%s was %r, rebuilt with %r" % (a, x.attrs.get(a), y.attrs.get(a))))
+                        # every other attribute the constructor was GIVEN (an opaque parameter: a function, a flag, a name) is a non-numeric attribute of the box: kept as it is
+                        for a, xv in sorted(x.attrs.items()):
+                            if a in KEY or a in ("_data", "_free_symbols") or a.startswith(("draw", "_draw")) or a in ("color", "shape", "tikzstyle_name"):
+                                continue
+                            if isinstance(xv, Sym) and not xv.args and xv.tag.startswith("param:") and xv.tag != "param:data" and not contains(xd_ := x.attrs.get("_data"), xv):
+                                if not same_value(sim, xv, y.attrs.get(a)):
+                                    bad.setdefault("keeps:" + a, (label, oracle, "%s was the constructor argument %s, rebuilt with %r" % (a, xv.tag[6:], y.attrs.get(a))))
                         xd, yd = x.attrs.get("_data"), y.attrs.get("_data")
                         if xd is not None and not (contains(yd, xd) and applied(yd, meth)):
                             bad.setdefault("data", (label, oracle, "data was %r, rebuilt with %r" % (xd, yd)))
